@@ -129,7 +129,7 @@ class World:
             if alphabet.get("reopen", True) and self.model_job(s) is not None:
                 ops.append(("reopen", s))
             if alphabet.get("reopen", True) and self.model_job(s) is None and self.g(s)["proj"] == "P" and \
-                    canon.job_id(self.g(s)["sp"]) in self.proj["P"]._sp_cache:
+                    canon.job_id(self.g(s)["sp"]) in _priv(self.proj["P"], "_sp_cache", ()):
                 # a job that is gone from the workspace stays re-openable by id through a session that still knows it
                 ops.append(("reopen_cached", s))
             if alphabet.get("pickle_proc") and len(s) == 1:
@@ -165,7 +165,7 @@ class World:
             _, src, dst = op
             job = self.slots[src]
             g = self.g(src)
-            lazy = bool(job._statepoint_requires_init)
+            lazy = bool(_priv(job, "_statepoint_requires_init", False))
             has_copy = _has_live_copy(job) or sum(1 for x in self.group_of.values() if x == self.group_of[src]) > 1
             try:
                 if name == "copy":
@@ -267,7 +267,7 @@ class World:
             # now, shallow copies included: only re-keys are promised to propagate.  They are not offered any more.
             self._invalidate_others(grp, proj, jid)
             self._drop_group(grp, keep=slot)
-            if slot in self.by_id and job._statepoint_requires_init and job._cached_statepoint is None:
+            if slot in self.by_id and _unloaded(job):
                 # opened by id and never asked for its state point: with the job gone nobody can tell it any more
                 self._drop_slot(slot)
         elif name in ("sp_set", "sp_toggle", "sp_del", "sp_nested", "sp_assign", "sp_assign_typed", "update_sp"):
@@ -437,7 +437,7 @@ class World:
             extra = {"shallow_copy_group": len(members) > 1,
                      "copy_made_before_statepoint_access": any(self.lazy_copy.get(x, False) for x in members)}
             mj = self.jobs[g["proj"]].get(want_id)
-            if mj is None and slot in self.by_id and job._statepoint_requires_init and job._cached_statepoint is None:
+            if mj is None and slot in self.by_id and _unloaded(job):
                 # a handle opened by id that has not read its state point cannot do so once the job is gone
                 if job.id != want_id:
                     out.append(("handle-does-not-describe-its-job", f"handle {slot} reports id {job.id}, model {want_id}", extra))
@@ -549,20 +549,35 @@ class World:
                 "id": v.get("_id"), "req_init": v.get("_statepoint_requires_init"),
                 "cached": None if v.get("_cached_statepoint") is None else canon.canon_json(canon.plain(v["_cached_statepoint"])),
                 "dir_known": v.get("_directory_known"), "path_set": v.get("_path") is not None,
-                "doc": None if v.get("_document") is None else os.path.relpath(v["_document"]._filename, self.root),
+                "doc": None if v.get("_document") is None else _relfile(v["_document"], self.root),
                 "stores": v.get("_stores") is not None, "cwd": len(v.get("_cwd") or []),
                 "project": projtag.get(id(v.get("_project")), "other#%d" % num(v.get("_project"))),
-                "project_cache": sorted(v["_project"]._sp_cache) + [v["_project"]._sp_cache_read],
+                "project_cache": sorted(_priv(v.get("_project"), "_sp_cache", ())) + [_priv(v.get("_project"), "_sp_cache_read", None)],
             }
             if spo is not None:
                 d["sp_obj"] = num(spo)
                 d["sp_data"] = canon.canon_json(canon.plain(spo._data)) if hasattr(spo, "_data") else None
-                d["sp_file"] = os.path.relpath(spo._filename, self.root)
-                d["sp_jobs"] = len(spo._jobs)
+                d["sp_file"] = _relfile(spo, self.root)
+                d["sp_jobs"] = len(_priv(spo, "_jobs", ()))
             out.append(d)
         for t, p in sorted(self.proj.items()):
-            out.append({"proj": t, "cache": sorted(p._sp_cache), "read": p._sp_cache_read})
+            out.append({"proj": t, "cache": sorted(_priv(p, "_sp_cache", ())), "read": _priv(p, "_sp_cache_read", None)})
         return json.dumps(out, sort_keys=True)
+
+
+def _priv(obj, name, default):
+    """Implementation detail used only to refine state keys / to decide what is NOT judged; absent -> default."""
+    return getattr(obj, name, default)
+
+
+def _unloaded(job):
+    """A by-id handle that has not read its state point yet (unknown counts as unloaded: such a handle is not judged)."""
+    return bool(_priv(job, "_statepoint_requires_init", True)) and _priv(job, "_cached_statepoint", None) is None
+
+
+def _relfile(obj, root):
+    fn = _priv(obj, "_filename", None) or _priv(obj, "filename", None)
+    return None if fn is None else os.path.relpath(fn, root)
 
 
 def _has_live_copy(job):
